@@ -455,7 +455,13 @@ func (p *poolRun) doTx(o *PoolOp) {
 			return
 		}
 		child := p.m.MakeTx(height, cin[:1], 1, feeFor(cin[0].Coin.Value), -1, ledger.COk)
-		if r.Chance(0.25) {
+		if r.Chance(0.3) {
+			// a time lock that the next block just satisfies - judged when the orphan is released, against whatever is the tip then
+			child.Lock = p.model.MTP() - 1 - uint32(r.Intn(900))
+			child.In[0].Seq = 0xfffffffd
+			p.m.SignAll(child, []ledger.Coin{cin[0].Coin}, -1, ledger.COk)
+			p.out.Probe("orphan_with_a_just_final_time_lock", 1)
+		} else if r.Chance(0.25) {
 			// the orphan names an output its parent does not have (nobody can tell before the parent shows up)
 			child.In[0].Prev.N = uint32(len(parent.Out)) + uint32(r.Intn(2))
 			child.Touch()
@@ -834,7 +840,24 @@ func (p *poolRun) doUndo(o *PoolOp) {
 	saved := p.model
 	for i := uint32(0); i <= d; i++ {
 		p.model = cur
-		b := p.assemble(nil, "fork")
+		var ftxs []*ledger.Tx
+		if i == d && len(p.orphans) > 0 && r.Chance(0.6) {
+			// the branch that wins mines the withheld parent of an orphan: the orphan is released while the
+			// reorganisation is still going on
+			j := r.Intn(len(p.orphans))
+			t, ok := p.orphans[j], true
+			for _, in := range t.In {
+				if _, has := cur.UTXO()[in.Prev]; !has || p.poolSpent(in.Prev) {
+					ok = false
+				}
+			}
+			if ok {
+				p.orphans = append(p.orphans[:j], p.orphans[j+1:]...)
+				ftxs = []*ledger.Tx{t}
+				p.out.Probe("withheld_parent_mined_by_the_winning_branch", 1)
+			}
+		}
+		b := p.assemble(ftxs, "fork")
 		p.model = saved
 		ln := p.l.Add(b, 1<<40)
 		if ln == nil {
